@@ -590,15 +590,9 @@ def oracle(case, obs):
     return fails
 
 
-def _is_initialreads_crash(case, obs, failure):
-    """the thread died in initialReads of a module, on an exception other than CommunicationFailedError"""
-    if failure['class'] != 'thread-died' or not obs['log'] or obs['log'][-1][0] != 'iread':
-        return False
-    out = obs['used'][-1][1]
-    return out != 'ok' and out[0] in ('secop', 'other')
-
-
-FINDING_CLASSIFIERS = {'initialreads_exception_kills_thread': _is_initialreads_crash}
+# no open finding: C13/initialreads-exception-kills-thread was repaired by 3828d54 (its corpus case
+# corpus/C13/finding_initialreads.json now has to pass the oracle)
+FINDING_CLASSIFIERS = {}
 
 
 def nontrivial_key(case, obs):
